@@ -1,5 +1,6 @@
 import Capella.Driver.Util
 import Capella.Model.Delete
+import Capella.Model.DeclDelete
 open Lean Capella.Driver Capella.Delete
 namespace Capella.Driver.Delete
 
@@ -32,6 +33,49 @@ def handle (op : String) (j : Json) : Except String Json := do
     | .ok g =>
       let surviving := (refs.zipIdx.filter (fun (r, _) => r ∈ g.refs)).map (fun (_, i) => jnat i)
       pure (Json.mkObj [("elems", Json.arr (g.elems.map jnat).toArray), ("refs", Json.arr surviving.toArray)])
+  | "decl-delete" =>
+    -- one `delete:` instruction on one parent (`Model/DeclDelete.lean: operateDelete`):
+    -- {elems, refs, subs: [[member, [subtree], [local part]]], parentless, lists: [[attr, [members]]], entries: [[attr, null | [uuids]]]}
+    let elems ← j.getObjValAs? (Array Nat) "elems"
+    let refs ← (← j.getObjValAs? (Array Json) "refs").toList.mapM refOf
+    let subs ← (← j.getObjValAs? (Array Json) "subs").toList.mapM fun t => do
+      let a ← t.getArr?
+      if h : a.size = 3 then
+        let m ← (a[0]).getNat?
+        let s ← fromJson? (α := Array Nat) (a[1])
+        let l ← fromJson? (α := Array Nat) (a[2])
+        pure (m, s.toList, l.toList)
+      else throw "subs: triple expected"
+    let orphan ← j.getObjValAs? (Array Nat) "parentless"
+    let lists ← (← j.getObjValAs? (Array Json) "lists").toList.mapM fun t => do
+      let a ← t.getArr?
+      if h : a.size = 2 then
+        let attr ← (a[0]).getStr?
+        let ms ← fromJson? (α := Array Nat) (a[1])
+        pure (attr, ms.toList)
+      else throw "lists: pair expected"
+    let entries ← (← j.getObjValAs? (Array Json) "entries").toList.mapM fun t => do
+      let a ← t.getArr?
+      if h : a.size = 2 then
+        let attr ← (a[0]).getStr?
+        match a[1] with
+        | .null => pure (Capella.DeclDelete.Entry.whole attr)
+        | v => do
+          let ms ← fromJson? (α := Array Nat) v
+          pure (Capella.DeclDelete.Entry.members attr ms.toList)
+      else throw "entries: pair expected"
+    let c : Capella.DeclDelete.Ctx := { subs := subs, parentless := orphan.toList }
+    let r := Capella.DeclDelete.operateDelete c lists { elems := elems.toList, refs := refs } [] entries
+    let err := match r.err with
+      | none => "ok" | some .notImplemented => "NotImplementedError" | some .keyError => "KeyError"
+      | some .valueError => "ValueError" | some .other => "Error"
+    let surviving := (refs.zipIdx.filter (fun (q, _) => q ∈ r.g.refs)).map (fun (_, i) => jnat i)
+    -- "gone": the members of the touched lists that are no longer in the model (the objects deleted, and members that
+    -- were link elements pointing at one of them); "deleted": the objects handed to the per-object deletion, in order
+    let gone := ((lists.flatMap (·.2)).filter (fun m => !r.g.elems.contains m)).eraseDups
+    pure (Json.mkObj [("outcome", Json.str err), ("deleted", Json.arr (r.deleted.map jnat).toArray),
+                      ("gone", Json.arr (gone.map jnat).toArray),
+                      ("elems", Json.arr (r.g.elems.map jnat).toArray), ("refs", Json.arr surviving.toArray)])
   | _ => throw s!"unknown op {op}"
 
 end Capella.Driver.Delete
